@@ -22,7 +22,7 @@ From Scion Require Import Lib.Check Lib.Bytes Model.Router Model.Network Model.P
   Model.ScmpReturn.
 From Scion Require Import Proofs.ProvFacts Proofs.ForwardView Proofs.ForwardStep Proofs.ScmpReturnCong
   Proofs.ScmpReturnStop Proofs.ScmpReturnMain Proofs.ScmpReturnOracle Proofs.ScmpReturnAlert
-  Proofs.ScmpReturnTrace.
+  Proofs.ScmpReturnTrace Proofs.ScmpReturnOracleAlert.
 Import ListNotations.
 Import Scion.Model.Router.Router Network Prov.
 Local Open Scope N_scope.
@@ -534,3 +534,55 @@ Definition C10_oracle_statement : Prop :=
   ScmpReturn.reply_port (RouterScmp.r_l4 r) qnext qoff = Some pt ->
   ScmpReturn.c10_ok t p pp pf ka kc how trq qnext qoff (ScmpReturn.pos_loc t p ka how)
                     (ScmpReturn.m_reply m) (ScmpReturn.m_back m) = true.
+
+(** THE COMPOSED STATEMENT, strongest proved form (audit follow-up).  [C10_oracle_statement] with
+    - the scenario an interface fault OR a traceroute request ([clean_fault]: the case names the
+      position of the faulty router / of the owner of the flagged interface; [alert_req_ok]: the
+      flagged packet is a traceroute request), i.e. WITHOUT the altered-hop-field scenarios
+      ([hop_fault]: no proof; for an expired hop the statement is false, see
+      [C10_expired_hop_refuted]) and WITHOUT traceroute cases whose named position is not the
+      owner's (the check puts those in scope so that an answer by the wrong router violates the
+      oracle; [C10_flag_untouched*] show the model never stops there, but that is not composed);
+    - one more hypothesis for traceroute requests, [carries]: the four bytes behind the SCMP
+      header that the extension skippers find in [raw] are identifier and sequence number of
+      the case (the model takes the bytes the fast path left as an input).
+    Still assumed, as in [C10_oracle_holds_on_model]: the model's walk stops at the named
+    position with the packet of the path (compared with the real walk on every case). *)
+Theorem C10_oracle_partial :
+  forall mac t hosts now now' p pp pf fa tc flow next qnext qoff ka kc how trq srt raw r pt,
+  let macq := macq_of mac in
+  good mac t p -> endpoints_ok t p pp = true ->
+  all_unexpired now p = true -> all_unexpired now' p = true -> ScmpReturn.src_ip_ok pp = true ->
+  ScmpReturn.pos_ok t p ka how = true -> (kc < nhops p)%nat -> ScmpReturn.no_revisit p kc = true ->
+  ScmpReturn.clean_fault t p pf fa ka kc how = true -> ScmpReturn.alert_req_ok pf trq = true ->
+  (forall id sq, trq = Some (id, sq) -> carries pp next raw id sq) ->
+  let m := ScmpReturn.model_q macq t hosts now now' p pp pf fa tc flow next qnext qoff srt raw in
+  (exists res, ScmpReturn.m_stop m =
+               Some (ScmpReturn.pos_loc t p ka how,
+                     ScmpReturn.apply_pfault pf (ScmpReturn.pos_pkt p pp ka how), res)) ->
+  ScmpReturn.m_reply m = RouterScmp.SReply r ->
+  ScmpReturn.reply_port (RouterScmp.r_l4 r) qnext qoff = Some pt ->
+  ScmpReturn.c10_ok t p pp pf ka kc how trq qnext qoff (ScmpReturn.pos_loc t p ka how)
+                    (ScmpReturn.m_reply m) (ScmpReturn.m_back m) = true.
+Proof. intros. eapply oracle_partial; eassumption. Qed.
+Print Assumptions C10_oracle_partial.
+
+(** its hypotheses hold for the traceroute examples above (so it yields their [c10_ok = true]) *)
+Example C10_oracle_partial_hypotheses :
+  carries ex_tr_pp 202 ex_tr_raw 4242 1 /\
+  ScmpReturn.pos_ok ex_topo ex_prov 1 ScmpReturn.AExt = true /\
+  ScmpReturn.clean_fault ex_topo ex_prov (ScmpReturn.PAlert 1 false true) None 1 1 ScmpReturn.AExt = true /\
+  ScmpReturn.pos_ok ex_topo ex_prov 2 ScmpReturn.ASib = true /\
+  ScmpReturn.clean_fault ex_topo ex_prov (ScmpReturn.PAlert 2 false true) None 2 2 ScmpReturn.ASib = true /\
+  ScmpReturn.clean_fault ex_topo ex_prov (ScmpReturn.PAlert 0 true false) None 0 0 ScmpReturn.AHost = true /\
+  ScmpReturn.no_revisit ex_prov 1 = true /\ ScmpReturn.no_revisit ex_prov 2 = true /\
+  ScmpReturn.src_ip_ok ex_tr_pp = true /\
+  match ScmpReturn.m_reply (ex_tr 2 false true) with
+  | RouterScmp.SReply r => ScmpReturn.reply_port (RouterScmp.r_l4 r) 202 92 = Some 4242
+  | _ => False
+  end.
+Proof.
+  split.
+  - intros ll H. vm_compute in H. injection H as <-. reflexivity.
+  - vm_compute. repeat split; reflexivity.
+Qed.
